@@ -5,7 +5,9 @@ import (
 	"verif/vlib"
 
 	_ "verif/checks/flags"
+	_ "verif/checks/funcparams"
 	_ "verif/checks/resolve"
+	_ "verif/checks/unittest"
 )
 
 func main() { vlib.Main() }
